@@ -234,13 +234,6 @@ def UserFaults (fl : Faults) : Prop :=
   fl.unconfigure = none ∧
   (∀ e, fl.importRaises = some e → (∃ c, e = .exn c) ∨ e = .base "SystemExit")
 
-theorem importExc_user {e : Exc} (h : (∃ c, e = .exn c) ∨ e = .base "SystemExit") :
-    importExc e = .exn Generated.collectLogRaises := by
-  rcases h with ⟨c, rfl⟩ | rfl
-  · unfold importExc
-    rw [handles_exception _ c (by decide)]; rfl
-  · decide
-
 /-- **C08_returns_full.** Whatever ordinary exception a phase raises (configuration, header,
 collection, graph, execution — alone or in combination), whatever the tasks do, and also when a task
 module calls `sys.exit()` while it is imported (since the F28 repair `Generated.collectFileCatches`
@@ -441,12 +434,6 @@ theorem C08_exit_import {w : World} {picks : List Nat} {fl : Faults} {r : TopRes
   subst hb
   exact ⟨rfl, (by decide : exitCode "COLLECTION_FAILED" = 3), rfl, rfl, rfl, rfl⟩
 
-/-- Exit code that the ladder of `build()` assigns to an exception class. -/
-def classCode (e : Exc) : Nat :=
-  match ladderFind Generated.buildLadder e with
-  | some c => exitCode c
-  | none => 0
-
 /-- The exit-code table: the code of the first phase that fails (configuration; then header, collection —
 a fault of the hook or a module that cannot be imported —, graph, execution hook, in the order of
 `Generated.buildPhases`), else 1 iff some task is reported FAIL, else 0. -/
@@ -467,11 +454,6 @@ def tableExit (fl : Faults) (dagOk anyFail : Bool) : Nat :=
   else match fl.phase "execute" with
     | some e => classCode e
     | none => if anyFail then exitCode "FAILED" else exitCode "OK"
-
-theorem classCode_exn (c : String) : ∃ code, ladderFind Generated.buildLadder (.exn c) = some code ∧
-    classCode (.exn c) = exitCode code := by
-  obtain ⟨code, h, _⟩ := ladderFind_exn c
-  exact ⟨code, h, by simp [classCode, h]⟩
 
 /-- **C08_exit_table.** For every combination of user-code faults (ordinary exceptions in any phase,
 `SystemExit` at import), every project with distinct task ids, options, world and accepted schedule:
